@@ -62,6 +62,9 @@ structure PassIRj where
   index : Nat
   table : String
   rules : List RuleIR
+  flags : Option Nat := none        -- what the directives of the pass denote in the pass header (CollisionFix, AutoKern)
+  maxRuleLoop : Option Nat := none
+  maxBackup : Option Nat := none
 deriving Repr, Inhabited
 
 structure GAssignIR where
@@ -228,7 +231,11 @@ def parseProgIR (text : String) : Except String ProgIR := do
   let classDefs ← if cdj.isNull then pure #[] else (← cdj.getArr?).mapM parseClassDef
   let passes ← (← (← j.getObjVal? "passes").getArr?).toList.mapM fun p => do
     let rules ← (← (← p.getObjVal? "rules").getArr?).toList.mapM parseRule
-    pure ({ index := ← jNat (← p.getObjVal? "index"), table := ← (← p.getObjVal? "table").getStr?, rules } : PassIRj)
+    let optNat (k : String) : Except String (Option Nat) := do
+      let v := p.getObjValD k
+      if v.isNull then pure none else pure (some (← jNat v))
+    pure ({ index := ← jNat (← p.getObjVal? "index"), table := ← (← p.getObjVal? "table").getStr?, rules,
+            flags := ← optNat "flags", maxRuleLoop := ← optNat "maxRuleLoop", maxBackup := ← optNat "maxBackup" } : PassIRj)
   let gj := j.getObjValD "gattr"
   let gattr ← if gj.isNull then pure none else do
     let assigns ← (← (← gj.getObjVal? "assigns").getArr?).toList.mapM fun a => do
